@@ -3,7 +3,7 @@
 //! Oracles are bit-level: `rn_even` (round-to-nearest-even of an integer to p significant bits) for
 //! int -> float, and a decode-sign/exponent/mantissa truncation for float -> int.  Neither performs
 //! a floating-point operation that the implementation performs.
-use crate::common::{rn_even, IntFmt};
+use crate::common::{ref_trunc_f32, ref_trunc_f64, rn_even, IntFmt};
 use dasp_sample::{conv, Sample, FromSample, ToSample, I24, I48, U24, U48};
 
 /// 2^(bits-1) as an exactly representable float
@@ -12,29 +12,6 @@ fn half_range_f32(bits: u32) -> f32 {
 }
 fn half_range_f64(bits: u32) -> f64 {
     (1u128 << (bits - 1)) as f64
-}
-
-/// trunc(s * 2^(bits-1)) for |s| <= 1, decoded from the bit pattern (f32)
-fn ref_trunc_f32(s: f32, bits: u32) -> i128 {
-    let b = s.to_bits();
-    let neg = (b >> 31) != 0;
-    let e = ((b >> 23) & 0xff) as i32;
-    let m = (b & 0x7f_ffff) as u128;
-    let (mant, exp) = if e == 0 { (m, -149) } else { (m | (1 << 23), e - 150) };
-    let sh = exp + (bits as i32 - 1);
-    let mag: u128 = if sh >= 0 { mant << (sh as u32) } else if -sh >= 64 { 0 } else { mant >> ((-sh) as u32) };
-    if neg { -(mag as i128) } else { mag as i128 }
-}
-
-fn ref_trunc_f64(s: f64, bits: u32) -> i128 {
-    let b = s.to_bits();
-    let neg = (b >> 63) != 0;
-    let e = ((b >> 52) & 0x7ff) as i32;
-    let m = (b & 0xf_ffff_ffff_ffff) as u128;
-    let (mant, exp) = if e == 0 { (m, -1074) } else { (m | (1 << 52), e - 1075) };
-    let sh = exp + (bits as i32 - 1);
-    let mag: u128 = if sh >= 0 { mant << (sh as u32) } else if -sh >= 64 { 0 } else { mant >> ((-sh) as u32) };
-    if neg { -(mag as i128) } else { mag as i128 }
 }
 
 macro_rules! int_float {
